@@ -7,6 +7,7 @@ the tokens before `--` (or all after `--`) x handler behaviours (writes at every
 streams, asks a question, raises).  The I/O decisions of `create_io` and the help switch are compared
 with the Lean model (translated from the source on every run); the oracle states the effects.
 """
+import re
 from harness import app_common as ac
 from harness import parser_common as pc
 
@@ -89,7 +90,9 @@ def generate(tier, rng):
         sw = [rng.choice(SWITCHES) for _ in range(rng.randint(1, 3))]
         after = rng.random() < 0.2
         if after:
-            tokens = base + ["--"] + sw
+            # sometimes a switch stands right before the separator as well (`-v --`: the separator is not a value)
+            pre = [rng.choice(SWITCHES)] if rng.random() < 0.4 else []
+            tokens = base + pre + ["--"] + sw
         else:
             tokens = list(base)
             for s in sw:
@@ -201,13 +204,15 @@ def oracle(case, obs):
     has = lambda t: t in before  # noqa
     cfg = obs["cfg"]
     if case["after"]:
-        # the same tokens after `--` have none of these effects
-        if cfg != {"ansi": "auto", "verbosity": 0, "quiet": False, "interactive": True} or obs["help_switch"]:
-            return "switches after `--` had an effect: %s help=%s" % (cfg, obs["help_switch"])
-        if "version 1.2.3" in obs["out"]:
+        # the same tokens after `--` have none of these effects: only what stands before the separator counts
+        want_cfg = {"ansi": "off" if has("--no-ansi") else "forced" if has("--ansi") else "auto",
+                    "verbosity": 4 if has("-vvv") else 2 if has("-vv") else 1 if has("-v") else 0,
+                    "quiet": has("--quiet") or has("-q"), "interactive": not (has("--no-interaction") or has("-n"))}
+        if cfg != want_cfg or obs["help_switch"] != (has("-h") or has("--help")):
+            return "switches after `--` had an effect: %s help=%s, the switches before it select %s" % (
+                cfg, obs["help_switch"], want_cfg)
+        if "version 1.2.3" in re.sub(r"\x1b\[[0-9;]*m", "", obs["out"]) and not (has("--version") or has("-V")):
             return "`--version` after `--` printed the version"
-        if obs["status"] == 0 and not obs["records"] and "USAGE" in obs["out"] and case["path"][-1] != "help":
-            pass  # a command whose default sub-command is `help`-like: not generated
         return None
     quiet = has("--quiet") or has("-q")
     if cfg["quiet"] != quiet:
@@ -235,7 +240,6 @@ def oracle(case, obs):
             return "the handler saw quiet=%s verbosity=%s interactive=%s" % (r["quiet"], r["verbosity"], r["interactive"])
         if r["answer"] != ("dflt" if no_int else "typed"):
             return "question answered %r with interaction %s" % (r["answer"], "off" if no_int else "on")
-    import re
     plain_out = re.sub(r"\x1b\[[0-9;]*m", "", obs["out"])
     helpsw = has("-h") or has("--help")
     versw = has("--version") or has("-V")
